@@ -14,7 +14,8 @@ RULE = (
     'dd.autoref.copy_bdd, dd._copy.copy_bdd and copy_bdds_from (one memo '
     'for several roots); targets that are fresh, that declare extra '
     'variables (interleaved), that already hold other nodes with a warm '
-    'cache, sources with extra unused variables; regular and complemented '
+    'cache, targets with dynamic reordering enabled and due within a few '
+    'nodes, sources with extra unused variables; regular and complemented '
     'roots. Oracle: table of the copy read from the target node table by '
     'variable name == table in the source; equal functions give equal '
     'target references; target M1-M5 with its own ledger; source node '
@@ -58,11 +59,12 @@ def plan(tier, seed):
     for k in range(ns):
         specs.append(dict(kind='sampled', sub=k, n=4 + k % 2,
                           rounds=6000 if tier == 'thorough' else 300,
-                          hashseed=k))
+                          dynamic=(k % 2 == 1), hashseed=k))
     meta = dict(
         rule=RULE,
         require=['copies', 'source_unchanged_checks', 'target_checks',
-                 'copy_vars_checks'] + ['entry_' + e for e in ENTRY],
+                 'copy_vars_checks', 'targets_with_dynamic_reordering'] +
+                ['entry_' + e for e in ENTRY],
         assumptions=['the target declares every variable in the support '
                      'of the copied function',
                      'truth-table denotation from BDD._succ'],
@@ -243,7 +245,9 @@ def sampled(ctx, spec):
     names = [f'x{i}' for i in range(n)]
     extra_t = ['e0', 'e1']
     extra_s = ['s0']
+    starts0 = _b.REORDER_STARTS
     for rnd in range(spec['rounds']):
+        _b.REORDER_STARTS = starts0
         # source: own order, one unused extra variable sometimes
         sn = names + (extra_s if rng.random() < 0.4 else [])
         so = sn[:]
@@ -276,6 +280,13 @@ def sampled(ctx, spec):
         rng.shuffle(to)
         tgt = Target(tn, to, rng, preload=rng.choice((0, 0, 3, 6)))
         sp_t = tgt.sp
+        dynamic = spec.get('dynamic') and rng.random() < 0.6
+        if dynamic:
+            # "whatever else the target already holds": a target on which
+            # dynamic reordering is enabled and due within a few nodes
+            _b.REORDER_STARTS = rng.randint(1, 6)
+            tgt.bdd.configure(reordering=True)
+            ctx.counters['targets_with_dynamic_reordering'] += 1
         if rng.random() < 0.3:
             # copy_vars into a fresh manager reproduces names and levels
             fresh = _b.BDD()
@@ -322,6 +333,10 @@ def sampled(ctx, spec):
                     tgt.bdd.decref(r)
         tgt.check('copy')
         ctx.counters['target_checks'] += 1
+        if dynamic:
+            if tgt.bdd.configure()['reordering'] is not True:
+                raise Violation(entry, 'target-reordering-switched-off', info)
+            _b.REORDER_STARTS = starts0
         ctx.case(any(0 < t < sp_n.full for t in tabs), 'sampled', tuple(so),
                  tuple(to), entry, tuple(tabs))
         if rnd == 0:
